@@ -16,11 +16,14 @@ import (
 
 	"google.golang.org/protobuf/types/known/structpb"
 	corev1 "k8s.io/api/core/v1"
+	kerrors "k8s.io/apimachinery/pkg/api/errors"
 	metav1 "k8s.io/apimachinery/pkg/apis/meta/v1"
 	"k8s.io/apimachinery/pkg/apis/meta/v1/unstructured"
 	"k8s.io/apimachinery/pkg/runtime"
 	"k8s.io/apimachinery/pkg/runtime/schema"
 	"k8s.io/apimachinery/pkg/types"
+	"sigs.k8s.io/controller-runtime/pkg/client"
+	"sigs.k8s.io/controller-runtime/pkg/client/apiutil"
 	"sigs.k8s.io/controller-runtime/pkg/reconcile"
 
 	"github.com/crossplane/crossplane-runtime/pkg/resource"
@@ -37,10 +40,10 @@ const (
 	xwGroup          = "example.org"
 	// a second API group that serves a kind with the SAME Kind name as xwGroup's "KA": the
 	// model kind "KA2" is Kind "KA" of this group (sorts before xwGroup, like "KA2x.." < "KAx..")
-	xwGroup2 = "aaa.example.org"
-	xwXRName         = "xr"
-	xwForeignUID     = "foreign-uid"
-	xwAnnot          = "crossplane.io/composition-resource-name"
+	xwGroup2     = "aaa.example.org"
+	xwXRName     = "xr"
+	xwForeignUID = "foreign-uid"
+	xwAnnot      = "crossplane.io/composition-resource-name"
 )
 
 var (
@@ -84,6 +87,13 @@ type xwRound struct {
 	Desired []xwDesired `json:"desired"`
 	FnErr   string      `json:"fnErr"` // "" | "error" | "fatal" (pipeline failure, C03)
 	Fault   *xwFault    `json:"fault"`
+	// Miss: composed resources that exist but are missing from the informer cache during this
+	// reconcile: the CACHED client answers NotFound for them, the uncached client and all writes
+	// see them (absent = none).
+	Miss []xwRef `json:"miss,omitempty"`
+	// MissSel (generator only, not part of the scenario): selectors from which Miss is picked
+	// when the round starts, among the objects that exist then (generated names are random).
+	MissSel []int `json:"-"`
 	// Hints: nondeterministic choices observed on the real run and told to the model.
 	Hints *xwHints `json:"hints"`
 }
@@ -127,8 +137,13 @@ type xwWorld struct {
 	rec     *composite.Reconciler
 	recMode string
 	cur     *xwRound // the round the long-lived function runner / fetcher serve
-	curRev  *v1.CompositionRevision
-	gen     *[][2]string // names generated in the current round
+	// composed resources missing from the informer cache in the current round (key: GroupKind/name)
+	miss   map[string]bool
+	curRev *v1.CompositionRevision
+	gen    *[][2]string // names generated in the current round
+	// model kind of each name generated in the current round, parallel to *gen (two kinds may be
+	// handed the same random suffix)
+	genKind *[]string
 }
 
 func xwKindGVK(kind string) schema.GroupVersionKind {
@@ -147,6 +162,99 @@ func xwModelKind(group, kind string) string {
 		return kind + "2"
 	}
 	return kind
+}
+
+// xwCache is the CACHED client the real reconciler and composers are built with
+// (NewReconciler(c, uc, …), NewFunctionComposer(cached, uncached, …), NewPTComposer(cached,
+// uncached)): the simstore itself, except that a Get of a composed resource that is missing from
+// the informer cache in the current round answers NotFound. The call is still issued to simstore,
+// so it is counted, logged and subject to the fault plan; only the answer is replaced. Writes
+// and every other read go straight through. The UNCACHED client is the simstore.
+type xwCache struct {
+	*Store
+	w *xwWorld
+}
+
+func xwMissKey(gk schema.GroupKind, name string) string { return gk.String() + "/" + name }
+
+func (c *xwCache) Get(ctx context.Context, key client.ObjectKey, obj client.Object, opts ...client.GetOption) error {
+	gvk, err := apiutil.GVKForObject(obj, c.Store.Scheme())
+	if err != nil || !c.w.miss[xwMissKey(gvk.GroupKind(), key.Name)] {
+		return c.Store.Get(ctx, key, obj, opts...)
+	}
+	var before map[string]any
+	ru, isU := obj.(runtime.Unstructured)
+	if isU {
+		before = runtime.DeepCopyJSON(ru.UnstructuredContent())
+	}
+	n0 := len(c.Store.Log)
+	err = c.Store.Get(ctx, key, obj, opts...)
+	if len(c.Store.Log) == n0 {
+		return err // the process is dead: the call never happened
+	}
+	last := &c.Store.Log[len(c.Store.Log)-1]
+	if last.Outcome != "ok" || err != nil {
+		return err // injected fault, or the object does not exist at all
+	}
+	// the object exists but the informer has not delivered it yet
+	if isU {
+		ru.SetUnstructuredContent(before) // a failed Get leaves the object untouched
+	}
+	last.Err = "notFound"
+	return kerrors.NewNotFound(schema.GroupResource{Group: gvk.Group, Resource: gvk.Kind}, key.Name)
+}
+
+// setMiss installs the round's cache misses.
+func (w *xwWorld) setMiss(miss []xwRef) {
+	w.miss = map[string]bool{}
+	for _, r := range miss {
+		w.miss[xwMissKey(xwKindGVK(r.Kind).GroupKind(), r.Name)] = true
+	}
+}
+
+// pickMiss turns generator selectors into a set of cache misses for the round about to start:
+// existing referenced composed resources and, for odd selectors, resources created in the previous
+// round (`created`), which is the situation the live fallback read exists for.
+func (w *xwWorld) pickMiss(sel []int, created []xwRef) []xwRef {
+	refs, objs, _ := w.view()
+	inRefs := map[string]bool{}
+	for _, r := range refs {
+		inRefs[r.Kind+"/"+r.Name] = true
+	}
+	exists := map[string]bool{}
+	cands := []xwRef{}
+	for _, o := range objs {
+		exists[o.Kind+"/"+o.Name] = true
+		if inRefs[o.Kind+"/"+o.Name] {
+			cands = append(cands, xwRef{Kind: o.Kind, Name: o.Name})
+		}
+	}
+	fresh := []xwRef{}
+	for _, r := range created {
+		if exists[r.Kind+"/"+r.Name] {
+			fresh = append(fresh, r)
+		}
+	}
+	out := []xwRef{}
+	seen := map[string]bool{}
+	for _, s := range sel {
+		from := cands
+		if s%2 == 1 && len(fresh) > 0 {
+			from = fresh
+		}
+		if len(from) == 0 {
+			continue
+		}
+		r := from[(s/2)%len(from)]
+		if !seen[r.Kind+"/"+r.Name] {
+			seen[r.Kind+"/"+r.Name] = true
+			out = append(out, r)
+		}
+	}
+	if len(out) == 0 {
+		return nil
+	}
+	return out
 }
 
 func xwFieldOwner(xrUID string) string {
@@ -341,6 +449,8 @@ func (n xwRecordingNamer) GenerateName(ctx context.Context, cd resource.Object) 
 	err := n.inner.GenerateName(ctx, cd)
 	if err == nil && had == "" && cd.GetName() != "" {
 		*n.w.gen = append(*n.w.gen, [2]string{cd.GetAnnotations()[xwAnnot], cd.GetName()})
+		gvk := cd.GetObjectKind().GroupVersionKind()
+		*n.w.genKind = append(*n.w.genKind, xwModelKind(gvk.Group, gvk.Kind))
 	}
 	return err
 }
@@ -393,6 +503,8 @@ func xwPTRevision(ds []xwDesired, ver string) *v1.CompositionRevision {
 // state, the revision fetcher returns w.curRev, generated names are recorded in *w.gen).
 func (w *xwWorld) newReconciler(mode string) *composite.Reconciler {
 	st := w.St
+	// the cached client: misses the current round's not-yet-informed composed resources
+	cached := &xwCache{Store: st, w: w}
 	runner := composite.FunctionRunnerFn(func(_ context.Context, _ string, req *fnv1.RunFunctionRequest) (*fnv1.RunFunctionResponse, error) {
 		rd := w.cur
 		if rd.FnErr == "error" {
@@ -415,15 +527,15 @@ func (w *xwWorld) newReconciler(mode string) *composite.Reconciler {
 	var composer composite.Composer
 	wrap := func(g names.NameGenerator) names.NameGenerator { return xwRecordingNamer{inner: g, w: w} }
 	if mode == "fn" {
-		fc := composite.NewFunctionComposer(st, st, runner)
+		fc := composite.NewFunctionComposer(cached, st, runner)
 		composite.VerifWrapFnNameGenerator(fc, wrap)
 		composer = fc
 	} else {
-		pc := composite.NewPTComposer(st, st)
+		pc := composite.NewPTComposer(cached, st)
 		composite.VerifWrapPTNameGenerator(pc, wrap)
 		composer = pc
 	}
-	return composite.NewReconciler(st, st, resource.CompositeKind(xwXRGVK),
+	return composite.NewReconciler(cached, st, resource.CompositeKind(xwXRGVK),
 		composite.WithComposer(composer),
 		composite.WithCompositionSelector(composite.CompositionSelectorFn(func(context.Context, resource.Composite) error { return nil })),
 		composite.WithCompositionRevisionFetcher(composite.CompositionRevisionFetcherFn(func(context.Context, resource.Composite) (*v1.CompositionRevision, error) { return w.curRev, nil })),
@@ -438,6 +550,7 @@ func (w *xwWorld) xwRunRound(mode string, rd *xwRound, extraCheck func()) xwRoun
 	st.Revive()
 	st.Log = nil
 	gen := [][2]string{}
+	genKind := []string{}
 	startRefs := map[string]bool{}
 	startObserved := map[string]bool{}
 	refs0, objs0, startFin := w.view()
@@ -450,7 +563,9 @@ func (w *xwWorld) xwRunRound(mode string, rd *xwRound, extraCheck func()) xwRoun
 		}
 	}
 	w.cur = rd
+	w.setMiss(rd.Miss)
 	w.gen = &gen
+	w.genKind = &genKind
 	if mode == "fn" {
 		rev := &v1.CompositionRevision{}
 		m := v1.CompositionModePipeline
@@ -493,8 +608,8 @@ func (w *xwWorld) xwRunRound(mode string, rd *xwRound, extraCheck func()) xwRoun
 	obs := xwRoundObs{Calls: []string{}}
 	// name -> rname map for hints (objects + this round's generated names)
 	rnameOf := map[string]string{}
-	for _, g := range gen {
-		rnameOf["*/"+g[1]] = g[0]
+	for i, g := range gen {
+		rnameOf["*"+genKind[i]+"/"+g[1]] = g[0]
 	}
 	_, objs, _ := w.view()
 	for _, o := range append(objs, objs0...) {
@@ -533,14 +648,14 @@ func (w *xwWorld) xwRunRound(mode string, rd *xwRound, extraCheck func()) xwRoun
 			}
 			continue
 		}
-		rn := rnameOf["*/"+c.Name] // generated in this round (random, unique across kinds)
+		rn := rnameOf["*"+gk+"/"+c.Name] // generated in this round for this kind
 		if rn == "" {
 			rn = rnameOf[gk+"/"+c.Name]
 		}
 		switch {
-		case c.Verb == "get" && !refWritten && !startRefs[gk+"/"+c.Name] && !genSeen[c.Name]:
+		case c.Verb == "get" && !refWritten && !startRefs[gk+"/"+c.Name] && !genSeen[gk+"/"+c.Name]:
 			// a name-availability probe of the name generator
-			genSeen[c.Name] = true
+			genSeen[gk+"/"+c.Name] = true
 			if rn == "" || !desiredHas(rd.Desired, rn) {
 				// the probe failed (fault): attribute it to a desired resource of that kind
 				// that has no observed object and no generated name yet
